@@ -16,6 +16,7 @@ from facts import strip, show, walk, const_val, normalize_cond, atom_of
 
 def check(run, prog, tier):
     run.rule("C17-a", "load_binary: the successful return is reachable only through the passing edge of every staleness test (source, driver id, config id, name, each include, each inherit source and binary)", 7)
+    run.rule("C17-d", "the '.c' -> '.b' rewrite `path[len - 1] = 'b'` uses len = strlen/sprintf length of that same path, taken after the path was last written", 3)
     run.rule("C17-b", "check_times returns 0 (stale) exactly on st_mtime > mtime and -1 when the file is missing", 2)
     run.rule("C17-c", "save_binary writes and load_binary reads magic, driver_id, config_id in the same order; config_id is assigned only in init_binaries from the simul_efun file's st_mtime; driver_id has no writers", 3)
 
@@ -116,6 +117,68 @@ def check(run, prog, tier):
                     why.append("an iteration %s returns to the loop head without the test" % p)
         run.ob("C17-a", inst, ok, "%s at block %d%s: %s" % (label, bid, " (per entry of a loop)" if in_loop else "", "; ".join(why) or "passing edge required on every path to the successful return; stale edge cannot reach it"),
                lb.file, lb.line_of_block(bid), "load_binary", what="load_binary can return a program although the %s is newer/mismatched: %s" % (kind, "; ".join(why)))
+
+    # ---- C17-d: the ".c" -> ".b" suffix rewrite indexes the path by its own length
+    from dataflow import solve
+    for f in (lb, sb):
+        sites = []
+        for b, i, n in f.nodes():
+            if n.get("k") == "Asg" and n.get("op") == "=" and const_val(n["R"]) == ord("b"):
+                l = strip(n["L"])
+                if l.get("k") == "Sub":
+                    idx = strip(l["i"])
+                    if idx.get("k") == "Bin" and idx.get("op") == "-" and const_val(idx["R"]) == 1 and strip(idx["L"]).get("k") == "Ref":
+                        sites.append((b, i, n, show(strip(l["b"])), strip(idx["L"])))
+        if not sites:
+            continue
+        lenvars = {s[4].get("id") for s in sites}
+
+        # reaching definitions of the length variable(s): which buffer's length they hold
+        def transfer(record):
+            def t(blk, st):
+                for i, e in enumerate(blk.el):
+                    for n in walk(e, True):
+                        if n.get("k") == "Asg" and strip(n["L"]).get("id") in lenvars and strip(n["L"]).get("k") == "Ref":
+                            r = strip(n["R"])
+                            src = "?"
+                            if r.get("k") == "Call" and r.get("fn") in ("strlen", "__builtin_strlen"):
+                                src = "len(" + show(strip(r["args"][0])) + ")"
+                            elif r.get("k") == "Call" and r.get("fn") in ("sprintf", "snprintf", "__builtin_sprintf"):
+                                src = "len(" + show(strip(r["args"][0])) + ")"
+                            elif n.get("op") != "=":
+                                src = "?"
+                            st = dict(st)
+                            st[strip(n["L"]).get("id")] = frozenset([src])
+                        elif n.get("k") == "Call" and n.get("fn") in ("sprintf", "snprintf", "strcpy", "strcat", "strncpy", "strncat"):
+                            # the buffer is rewritten: a length taken before is stale
+                            tgt = show(strip(n["args"][0]))
+                            st = dict(st)
+                            for k2, v2 in list(st.items()):
+                                st[k2] = frozenset(("stale(" + x + ")") if x == "len(" + tgt + ")" else x for x in v2)
+                            # sprintf's own result is handled by the enclosing assignment above (evaluated after the call element)
+                    if record is not None:
+                        for b2, i2, n2, buf, lv in sites:
+                            if b2.id == blk.id and i2 == i:
+                                record.append((n2, buf, lv, st.get(lv.get("id"), frozenset(["unset"]))))
+                return st
+            return t
+
+        def join(a, b):
+            out = dict(a)
+            for k2, v2 in b.items():
+                out[k2] = out.get(k2, frozenset()) | v2
+            return out
+        ins = solve(f, {}, transfer(None), None, join)
+        rec = []
+        tr = transfer(rec)
+        for bid in sorted(f.reachable(), reverse=True):
+            if bid in ins:
+                tr(f.blocks[bid], ins[bid])
+        for j, (n, buf, lv, defs) in enumerate(rec):
+            # the assignment `len = sprintf(buf,...)` evaluates the call first (stale) then assigns len(buf): fine.
+            ok = defs == frozenset(["len(" + buf + ")"])
+            run.ob("C17-d", "suffix:%s:%d" % (f.name, j), ok, "`%s` with %s holding %s" % (show(n), lv.get("n"), sorted(defs)), f.file, n.get("l"), f.name,
+                   what="%s rewrites the '.c' suffix of %s at an index that is not that path's own length (%s): the dependency's binary is looked up under a wrong name and its staleness is never seen" % (f.name, buf, sorted(defs)))
 
     # ---- C17-b
     stale_ok = miss_ok = False
